@@ -4,6 +4,7 @@
 import Msmart.Lemmas.Crc
 import Msmart.Lemmas.Contained
 import Msmart.Props.C14
+import Msmart.Lemmas.CodecEq
 
 namespace Msmart.Props.C13
 open Msmart Msmart.Model Msmart.Lemmas
@@ -41,6 +42,24 @@ theorem outer_checksum_byte_detects (s cs cs' : UInt8) (rest : Bytes) (hne : cs 
     rw [if_neg]
     intro h; exact hne (hcs.symm.trans h)
   · cases hvalid
+
+/-- **C13 about the translated `Frame.validate`** (`Generated/Codec.lean`, regenerated from the source on every run): a
+    valid frame with any single byte after the start byte substituted is rejected as an invalid frame. -/
+theorem outer_checksum_detects_code (s x y cs : UInt8) (pre post : Bytes) (hxy : x ≠ y)
+    (hvalid : Generated.Codec.frameValidate (s :: ((pre ++ [x] ++ post) ++ [cs])) = .ok ()) :
+    Generated.Codec.frameValidate (s :: ((pre ++ [y] ++ post) ++ [cs])) = .error .invalidFrame := by
+  rw [CodecEq.frameValidate_eq] at hvalid ⊢; exact outer_checksum_detects s x y cs pre post hxy hvalid
+
+theorem outer_checksum_byte_detects_code (s cs cs' : UInt8) (rest : Bytes) (hne : cs ≠ cs')
+    (hvalid : Generated.Codec.frameValidate (s :: (rest ++ [cs])) = .ok ()) :
+    Generated.Codec.frameValidate (s :: (rest ++ [cs'])) = .error .invalidFrame := by
+  rw [CodecEq.frameValidate_eq] at hvalid ⊢; exact outer_checksum_byte_detects s cs cs' rest hne hvalid
+
+/-- … and the translated `crc8.calculate` is sensitive to every single byte -/
+theorem crc_single_byte_sensitive_code (a b : Bytes) (x y : UInt8)
+    (h : Generated.Codec.crc8Calculate (Py.ints (a ++ [x] ++ b)) = Generated.Codec.crc8Calculate (Py.ints (a ++ [y] ++ b))) : x = y := by
+  rw [CodecEq.crc8Calculate_eq, CodecEq.crc8Calculate_eq] at h
+  exact crc_single_byte a b x y (UInt8.toNat_inj.mp (by exact_mod_cast h))
 
 /-- single-byte sensitivity of the CRC-8 (from the generated table being a permutation) -/
 theorem crc_single_byte_sensitive (a b : Bytes) (x y : UInt8)
